@@ -5,8 +5,13 @@
    source-to-source transformation, and of the places where the
    implementation is known to leave the documented meaning.
 
-   * [prefold]: every maximal integer subexpression made of constants is
-     replaced by its value.  A constant + - * whose exact result leaves the
+   * [prefold]: what ast2ir.rs and the builders of ir/mod.rs make of a
+     condition, bottom-up: constant operands of - ~ << >> & | ^ fold; an n-ary
+     + - * node folds only when ALL its operands are constants; `not`, `and`,
+     `or` of boolean constants fold; a `with` identifier declared with a
+     constant is replaced by it; `0 of` becomes `none of`.  Compared node by
+     node with the IR the compiler really built (Cond/IrTree.v, Cond/Check.v).
+     A constant + - * whose exact result leaves the
      i64 range is rejected by the compiler (NumberOutOfRange): an accept /
      reject difference, not a verdict difference; the model leaves such a
      node unfolded and the harness does not generate it.  [fold_sound]
@@ -32,59 +37,146 @@ Definition in_i64 (z : Z) : bool := (- two63 <=? z) && (z <? two63).
 Definition ap (op : arith) (a b : Z) : Z :=
   match op with Add => a + b | Sub => a - b | _ => a * b end.
 
-(* the value the compiler computes for an integer expression at compile time *)
-Fixpoint cval (e : expr) : option Z :=
+Definition arith_eqb (a b : arith) : bool :=
+  match a, b with
+  | Add, Add | Sub, Sub | Mul, Mul | Div, Div | Mod, Mod | Shl, Shl | Shr, Shr
+  | BAnd, BAnd | BOr, BOr | BXor, BXor => true
+  | _, _ => false
+  end.
+
+(* identifiers whose value the compiler knows: a `with` identifier declared
+   with a constant expression is replaced by that constant wherever it is used
+   (ir.ident: a symbol whose type_value is constant); loop variables never are *)
+Inductive kconst := KI (z : Z) | KB (b : bool) | KS (s : list Z).
+Definition kexpr (k : kconst) : expr :=
+  match k with KI z => EInt z | KB b => EBool b | KS s => EStr s end.
+Definition kval (k : kconst) : value :=
+  match k with KI z => VInt z | KB b => VBool b | KS s => VStr s end.
+Definition const_of (e : expr) : option kconst :=
+  match e with EInt z => Some (KI z) | EBool b => Some (KB b) | EStr s => Some (KS s) | _ => None end.
+Definition kenv := list (nat * option kconst).
+Fixpoint klookup (x : nat) (c : kenv) : option kconst :=
+  match c with
+  | [] => None
+  | (y, v) :: t => if Nat.eqb x y then v else klookup x t
+  end.
+
+(* fold_arithmetic over the operands of one n-ary + - * node (the parser
+   appends to the node on its left when it has the same operator, cst2ast.rs
+   new_n_ary_expr): a value only when EVERY operand is a constant, computed
+   left to right with checked i64 arithmetic.  [e] is the left-nested chain. *)
+Fixpoint sval (op : arith) (e : expr) : option Z :=
   match e with
   | EInt z => Some z
-  | ENeg a => match cval a with Some v => Some (wrap64 (- v)) | None => None end
-  | EBitNot a => match cval a with Some v => Some (Z.lnot v) | None => None end
-  | EArith op a b =>
-      match cval a, cval b with
-      | Some x, Some y =>
-          match op with
-          | Add | Sub | Mul => let r := ap op x y in if in_i64 r then Some r else None
-          | Div | Mod => None
-          | Shl | Shr =>
-              if 0 <=? y then match arith_int op x y with VInt r => Some r | _ => None end else None
-          | BAnd | BOr | BXor => match arith_int op x y with VInt r => Some r | _ => None end
-          end
-      | _, _ => None
-      end
+  | EArith op' a (EInt y) =>
+      if arith_eqb op' op then
+        match sval op a with
+        | Some x => let r := ap op x y in if in_i64 r then Some r else None
+        | None => None
+        end
+      else None
   | _ => None
   end.
+Definition nary (op : arith) (e : expr) : expr :=
+  match sval op e with Some r => EInt r | None => e end.
 
-Definition folded (e e' : expr) : expr :=
-  match cval e with Some v => EInt v | None => e' end.
+(* shl / shr (non-negative constant count) and the bitwise operators: binary *)
+Definition fold_bin (op : arith) (a b : expr) : expr :=
+  match a, b with
+  | EInt x, EInt y =>
+      match op with
+      | Shl | Shr =>
+          if 0 <=? y then match arith_int op x y with VInt r => EInt r | _ => EArith op a b end
+          else EArith op a b
+      | BAnd | BOr | BXor => match arith_int op x y with VInt r => EInt r | _ => EArith op a b end
+      | _ => EArith op a b
+      end
+  | _, _ => EArith op a b
+  end.
 
-Fixpoint prefold (e : expr) : expr :=
+(* ir.and / ir.or: constant operands that do not decide the result are
+   dropped; the node becomes a constant when all operands were dropped or one
+   decides.  (The chain stays left-nested here; Cond/IrTree.v lists the
+   operands that remain.) *)
+Definition fold_and (a b : expr) : expr :=
+  match a, b with
+  | EBool false, _ | _, EBool false => EBool false
+  | EBool true, EBool true => EBool true
+  | _, _ => EAnd a b
+  end.
+Definition fold_or (a b : expr) : expr :=
+  match a, b with
+  | EBool true, _ | _, EBool true => EBool true
+  | EBool false, EBool false => EBool false
+  | _, _ => EOr a b
+  end.
+Definition fold_not (a : expr) : expr :=
+  match a with EBool b => EBool (negb b) | _ => ENot a end.
+Definition fold_neg (a : expr) : expr :=
+  match a with EInt v => EInt (wrap64 (- v)) | _ => ENeg a end.
+Definition fold_bitnot (a : expr) : expr :=
+  match a with EInt v => EInt (Z.lnot v) | _ => EBitNot a end.
+(* of_expr_from_ast (commit 2b4649c7): a quantifier known to be zero is `none` *)
+Definition zero_quant (qk : qkind) (q : expr) : qkind :=
+  match qk, q with QExpr, EInt 0 => QNone | _, _ => qk end.
+
+(* [chain]: this expression is the left operand of an n-ary node of that
+   operator, so - when it has the same operator - it is part of that node and
+   not folded on its own *)
+Fixpoint pfold (chain : option arith) (c : kenv) (e : expr) : expr :=
   match e with
-  | EBool _ | EInt _ | EStr _ | EFilesize | EVar _ | EGlobal _ | ERule _ => e
-  | ENot a => ENot (prefold a)
-  | EAnd a b => EAnd (prefold a) (prefold b)
-  | EOr a b => EOr (prefold a) (prefold b)
-  | EDefined a => EDefined (prefold a)
-  | ENeg a => folded e (ENeg (prefold a))
-  | EBitNot a => folded e (EBitNot (prefold a))
-  | EArith op a b => folded e (EArith op (prefold a) (prefold b))
-  | ECmp op a b => ECmp op (prefold a) (prefold b)
-  | EStrOp op a b => EStrOp op (prefold a) (prefold b)
-  | ERead k off => ERead k (prefold off)
-  | EPat p ak a1 a2 => EPat p ak (prefold a1) (prefold a2)
-  | ECount p rg lo hi => ECount p rg (prefold lo) (prefold hi)
-  | EOffset p i => EOffset p (prefold i)
-  | ELength p i => ELength p (prefold i)
-  | EOf qk q set ak a1 a2 => EOf qk (prefold q) set ak (prefold a1) (prefold a2)
-  | EOfB qk q items => EOfB qk (prefold q) (prefold_list items)
-  | EForOf qk q set body => EForOf qk (prefold q) set (prefold body)
-  | EForRange qk q x lo hi body => EForRange qk (prefold q) x (prefold lo) (prefold hi) (prefold body)
-  | EForTuple qk q x items body => EForTuple qk (prefold q) x (prefold_list items) (prefold body)
-  | EWith x d body => EWith x (prefold d) (prefold body)
+  | EBool _ | EInt _ | EStr _ | EFilesize | EGlobal _ | ERule _ => e
+  | EVar x => match klookup x c with Some k => kexpr k | None => e end
+  | ENot a => fold_not (pfold None c a)
+  | EAnd a b => fold_and (pfold None c a) (pfold None c b)
+  | EOr a b => fold_or (pfold None c a) (pfold None c b)
+  | EDefined a => EDefined (pfold None c a)
+  | ENeg a => fold_neg (pfold None c a)
+  | EBitNot a => fold_bitnot (pfold None c a)
+  | EArith op a b =>
+      match op with
+      | Add | Sub | Mul =>
+          let e' := EArith op (pfold (Some op) c a) (pfold None c b) in
+          match chain with
+          | Some op0 => if arith_eqb op op0 then e' else nary op e'
+          | None => nary op e'
+          end
+      | Div | Mod => EArith op (pfold None c a) (pfold None c b)
+      | _ => fold_bin op (pfold None c a) (pfold None c b)
+      end
+  | ECmp op a b => ECmp op (pfold None c a) (pfold None c b)
+  | EStrOp op a b => EStrOp op (pfold None c a) (pfold None c b)
+  | ERead k off => ERead k (pfold None c off)
+  | EPat p ak a1 a2 => EPat p ak (pfold None c a1) (pfold None c a2)
+  | ECount p rg lo hi => ECount p rg (pfold None c lo) (pfold None c hi)
+  | EOffset p i => EOffset p (pfold None c i)
+  | ELength p i => ELength p (pfold None c i)
+  | EOf qk q set ak a1 a2 =>
+      let q' := pfold None c q in
+      EOf (zero_quant qk q') q' set ak (pfold None c a1) (pfold None c a2)
+  | EOfB qk q items =>
+      let q' := pfold None c q in
+      EOfB (zero_quant qk q') q' (pfold_list c items)
+  | EForOf qk q set body => EForOf qk (pfold None c q) set (pfold None c body)
+  | EForRange qk q x lo hi body =>
+      EForRange qk (pfold None c q) x (pfold None c lo) (pfold None c hi) (pfold None ((x, None) :: c) body)
+  | EForTuple qk q x items body =>
+      EForTuple qk (pfold None c q) x (pfold_list c items) (pfold None ((x, None) :: c) body)
+  | EWith x d body =>
+      let d' := pfold None c d in
+      EWith x d' (pfold None ((x, const_of d') :: c) body)
   end
-with prefold_list (es : exprs) : exprs :=
+with pfold_list (c : kenv) (es : exprs) : exprs :=
   match es with
   | ENil => ENil
-  | ECons e t => ECons (prefold e) (prefold_list t)
+  | ECons e t => ECons (pfold None c e) (pfold_list c t)
   end.
+
+Definition prefold (e : expr) : expr := pfold None [] e.
+
+(* the value the compiler computes for an integer expression at compile time *)
+Definition cval (c : kenv) (e : expr) : option Z :=
+  match pfold None c e with EInt v => Some v | _ => None end.
 
 (* pat_range_match(start, end, required) over the match lists of the patterns
    with ids start..=end: number of patterns with at least one match, then
